@@ -524,8 +524,10 @@ func (p *Packer) validSymlink(root, path, target string) (bool, error) {
 		absTarget = filepath.Join(filepath.Dir(absPath), target)
 	}
 
-	// Target falls within root.
-	if strings.HasPrefix(absTarget, absRoot) {
+	// Target falls within root. A plain textual prefix would also accept a
+	// sibling whose name merely starts with root's name ("/x/root-other" for
+	// root "/x/root"), so compare whole path components.
+	if absTarget == absRoot || strings.HasPrefix(absTarget, strings.TrimSuffix(absRoot, string(filepath.Separator))+string(filepath.Separator)) {
 		return true, nil
 	}
 
